@@ -400,6 +400,35 @@ func c12CLI(c *fw.Ctx, r *rand.Rand, u, served, caseDir string, rels []string, f
 			}
 		}
 	}
+	// glob copy (file globbing through /files) from the directory and from the URL
+	{
+		d1, d2 := filepath.Join(local, "gcopy-local"), filepath.Join(local, "gcopy-remote")
+		common := []string{"-src", caseDir + "/cli/*.wsp", "-agg-method", model.MethodNames[l.Method], "-x-files-factor", strconv.FormatFloat(float64(l.Xff), 'g', -1, 32), "-retentions", l.RetentionString(), "-text-out", ""}
+		okSec := false
+		var lres, rres cliResult
+		for try := 0; try < 6 && !okSec; try++ {
+			os.RemoveAll(d1)
+			os.RemoveAll(d2)
+			ns := time.Now().Nanosecond()
+			if ns > 300e6 {
+				time.Sleep(time.Duration(1e9-ns) + 5*time.Millisecond)
+			}
+			lres = runCLI(c, append([]string{"copy", "-src-base", served, "-dest-base", d1}, common...)...)
+			rres = runCLI(c, append([]string{"copy", "-src-base", u, "-dest-base", d2}, common...)...)
+			okSec = lres.T0 == rres.T1
+		}
+		if okSec {
+			c.Count("cli_copy_pairs", 1)
+			for _, rel := range []string{relA, relB} {
+				b1, b2 := readFileOrNil(filepath.Join(d1, rel)), readFileOrNil(filepath.Join(d2, rel))
+				if lres.Exit != rres.Exit || b1 == nil || !bytes.Equal(b1, b2) {
+					c.Violationf("cli-remote-local-differ:copy-glob", fw.J{"local": lres.brief(), "remote": rres.brief(), "file": rel, "first_diff": firstDiff(b1, b2)},
+						"glob copy from the directory (exit %d) and from the URL (exit %d): destination %s differs or is missing", lres.Exit, rres.Exit, rel)
+					break
+				}
+			}
+		}
+	}
 	if so := serverOutput(c); strings.Contains(so, "panic serving") {
 		c.Violationf("server-panic", fw.J{"server_output": truncStr(so[strings.Index(so, "panic serving"):], 3000)}, "the server panicked while answering a request")
 	}
